@@ -180,12 +180,23 @@ def run(tier, replay=None):
     # ---- 3. codec leg
     gen_cfg = _write(wd, "codec_gen.cfg", CODEC_CFG % dict(consts, full="TRUE" if thorough else "FALSE", salt=vlib.seed() % 1000))
     cases = os.path.join(wd, "codec_cases.ndjson")
+    seen_cases = set()
+
+    def sink(o, f):
+        k = json.dumps(o, sort_keys=True)
+        if k not in seen_cases:          # TLC may evaluate the invariant of an initial state more than once
+            seen_cases.add(k)
+            f.write(k + "\n")
+
     with open(cases, "w") as f:
-        g = vlib.tlc("HandoverCodec", gen_cfg, PID, workers=2, timeout=600, want_replay=True,
-                     replay_sink=lambda o: f.write(json.dumps(o) + "\n"))
+        g = vlib.tlc("HandoverCodec", gen_cfg, PID, workers=1, timeout=600, want_replay=True,
+                     replay_sink=lambda o: sink(o, f))
     rep.add_tlc(g)
+    g["n_replays"] = len(seen_cases)
     if g["violated"] or g["n_replays"] == 0:
         raise vlib.ToolError("codec generator produced %d cases (%s)" % (g["n_replays"], g["violated"]))
+    if g["n_replays"] != g["distinct"]:
+        raise vlib.ToolError("codec generator: %d cases for %d states" % (g["n_replays"], g["distinct"]))
     out = vlib.run_harness(bins["replay_scm"], ["--seed", str(vlib.seed())], stdin_path=cases, timeout=900)
     summ = [o for o in out if o.get("kind") == "summary"]
     if not summ:
